@@ -51,6 +51,16 @@ def recase(rng, s, mode=None):
         return s.lower()
     if mode == "upper":
         return s.upper()
+    if mode == "regional":
+        # soft-masking as sequence editors export it: one contiguous stretch (of the circle) in the other case
+        n = len(s)
+        if n < 2:
+            return s.lower()
+        a = rng.randrange(n)
+        L = rng.randint(1, n - 1)
+        inside = set((a + i) % n for i in range(L))
+        up_inside = rng.random() < 0.5
+        return "".join((c.upper() if (i in inside) == up_inside else c.lower()) for i, c in enumerate(s))
     return "".join(c.lower() if rng.random() < 0.5 else c.upper() for c in s)
 
 
@@ -129,13 +139,24 @@ def distinct_overhangs(rng, k, count, forbid=()):
     return ovs
 
 
-def gen_assembly(rng, enz, nmods):
-    """vector + chain of modules with the expected product (documented formula)"""
+def gen_assembly(rng, enz, nmods, closing=None):
+    """vector + chain of modules with the expected product (documented formula).  `closing`: the overhang on which
+    the chain closes (the vector's upstream overhang) is the reverse complement of an inner junction ("rc") or its
+    own reverse complement ("pal") — legal: only the modules' *start* overhangs must not pair up"""
     site, off, k = geom(enz)
     ovs = distinct_overhangs(rng, k, nmods + 1, (site, rc(site)))
     nmods = len(ovs) - 1
     if nmods < 1:
         return None
+    if closing == "rc" and nmods >= 2:
+        cand = rc(ovs[rng.randrange(1, nmods)])
+        if cand not in ovs and site not in cand and rc(site) not in cand:
+            ovs[nmods] = cand
+    elif closing == "pal" and k % 2 == 0 and k >= 2:
+        half = rnd_avoid(rng, k // 2, (site, rc(site)))
+        cand = half + rc(half)
+        if cand not in ovs and all(rc(o) != cand for o in ovs[:nmods]) and site not in cand and rc(site) not in cand:
+            ovs[nmods] = cand
     vec = gen_vector(rng, enz, o5=ovs[0], o3=ovs[nmods])
     mods = [gen_module(rng, enz, ovs[i], ovs[i + 1]) for i in range(nmods)]
     expected = vec[1]["o3"] + vec[1]["b"] + "".join(d["o5"] + d["t"] for _, d in mods)
